@@ -171,6 +171,11 @@ def make_defs(tier: str, seed: int):
     pullers += [
         {"next": {"name": "clone"}, "next_back": {"name": "to_owned"}, "iter": {"mode": "next_and_back"}, "range": {}},
         {"as_str": {"name": "to_string"}, "Display": {}, "Debug": {}, "IntoStr": {}},
+        # user-requested items which are also dependencies of another feature keep their requested visibility
+        {"next": {}, "next_back": {}, "iter": {"mode": "next_and_back"}},
+        {"next": {"name": "succ"}, "next_back": {}, "MIN": {}, "MAX": {"name": "LAST"}, "iter": {}, "range": {}},
+        {"as_str": {}, "Debug": {}, "Display": {}}, {"MIN": {}, "MAX": {}, "try_from": {}, "TryFrom": {}},
+        {"MIN": {"name": "FIRST"}, "iter": {"mode": "table"}, "range": {}},
         {"as_str": {"name": "into", "mode": "table"}, "Debug": {}, "names": {}},
         {"iter": {"struct_name": "Iter", "mode": "table"}, "range": {}, "names": {"struct_name": "Map"}},
         {"MIN": {"name": "MAX"}, "MAX": {"name": "MIN"}, "next": {"name": "next_back"}, "next_back": {"name": "next"},
